@@ -166,6 +166,7 @@ def match_known(v: dict, known: list[dict]):
 def _worker(args):
     seeds, tag, variant, profile, monitor_names, keep = args
     import run
+    import small
     import monitors
     import paired  # noqa: F401  (registers C09 / C12 / C15)
     import dealing  # noqa: F401  (registers C10)
@@ -175,7 +176,10 @@ def _worker(args):
     import phh  # noqa: F401  (registers C16)
     import acpc  # noqa: F401  (registers C17)
     mons = [monitors.ALL[m] for m in monitor_names]
-    r = run.run_batch(seeds, tag, variant, profile, monitors=mons)
+    if seeds and seeds[0] == 'small':
+        r = small.run_small(tag, mons, budget_per_config=seeds[2], only=[seeds[1]])
+    else:
+        r = run.run_batch(seeds, tag, variant, profile, monitors=mons)
     viols = []
     for cid, m in r['metas'].items():
         for v in m.get('violations', []):
@@ -201,7 +205,7 @@ def _worker(args):
 
 
 def correspondence(seed: int, count: int, monitor_names, variant=None, profile=None, jobs=None,
-                   tag='c', chunk=40, directed=None):
+                   tag='c', chunk=40, directed=None, small_budget=0):
     jobs = jobs or min(16, os.cpu_count() or 4)
     base = seed * 1000003
     seeds = [base + i for i in range(count)]
@@ -215,6 +219,11 @@ def correspondence(seed: int, count: int, monitor_names, variant=None, profile=N
         dprof = dict(profile or {}, _director=name)
         for j in range(0, dn, chunk):
             args.append((dseeds[j:j + chunk], f'{tag}{name}{j}', variant, dprof, list(monitor_names), 0))
+    # small-scope exhaustive stream: every decision sequence of a few tiny games (one chunk per game)
+    if small_budget:
+        import small
+        for ci in range(len(small.configs())):
+            args.append((('small', ci, small_budget), f'{tag}s{ci}', variant, profile, list(monitor_names), 0))
     tot = dict(cases=0, lines=0, diffs=[], stats=Counter(), dist=Counter(), viols=[], nontrivial=0,
                samples=[], impl_s=0.0, model_s=0.0)
     if jobs == 1 or len(args) == 1:
